@@ -33,7 +33,26 @@ SOURCES = {
     'chirp+complex': [('chirp', 0.11, 0.0, 1.0, 1.0), ('complex',)],
     'two_noise': [('noise', 0.0, 1.0), ('noise', 1.0, 3.0)],
     'two_chirps': [('chirp', 0.4, 0.05, 1.0, 0.0), ('chirp', 0.05, -0.01, 2.0, 2.0)],
+    # a custom source that plays back a STORED table (returns a view of it), then a chirp: the table belongs to the caller
+    'table+chirp': [('table',), ('chirp', 0.21, 0.013, 1.5, 0.3)],
+    # a custom source returning single-precision values, then a chirp (which is still summed in double precision)
+    'f32+chirp': [('f32',), ('chirp', 0.21, 0.013, 1.5, 0.3)],
+    # chirp parameters as astropy Quantities in non-base units (kHz, kHz/s)
+    'chirp_q': [('chirp_q', 0.21, 0.013, 1.5, 0.3)],
 }
+
+
+class _Table(object):
+    def __init__(self):
+        self.T = np.full(4096, 0.75)
+
+    def __call__(self, ts):
+        return self.T[:len(ts)]
+
+
+def _f32_fn(ts):
+    return np.full(len(ts), 0.3, dtype=np.float32)
+
 
 
 def _real_fn(ts):
@@ -129,6 +148,16 @@ def add_sources(s, cfg, twin_noise_only=False):
             s.add_signal(_real_fn)
         elif src[0] == 'complex':
             s.add_signal(_complex_fn)
+        elif src[0] == 'table':
+            tb = _Table()
+            s._c10_tables = getattr(s, '_c10_tables', []) + [tb]
+            s.add_signal(tb)
+        elif src[0] == 'f32':
+            s.add_signal(_f32_fn)
+        elif src[0] == 'chirp_q':
+            from astropy import units as u
+            s.add_constant_signal(f_start=((cfg['fch1'] + sgn * src[1] * rate) / 1e3) * u.kHz, drift_rate=(src[2] * rate / 1e3) * u.kHz / u.s,
+                                  level=src[3], phase=src[4])
 
 
 def signal_ref(cfg, ts):
@@ -139,7 +168,12 @@ def signal_ref(cfg, ts):
     tot = np.zeros(t.shape, dtype=np.clongdouble)
     tol = np.zeros(t.shape, dtype=float)
     for src in SOURCES[cfg['sources']]:
-        if src[0] == 'chirp':
+        if src[0] == 'table':
+            tot += LD(0.75)
+        elif src[0] == 'f32':
+            tot += LD(np.float32(0.3))
+            tol += 1e-13
+        if src[0] in ('chirp', 'chirp_q'):
             f0 = LD(cfg['fch1'] + sgn * src[1] * rate) - LD(cfg['fch1'])
             drift = LD(src[2] * rate)
             arg = TWO_PI * (f0 * t + drift * t * t / 2)
@@ -188,6 +222,10 @@ def apply_op(s, m, op, cfg, twin, V, site):
             return False
         v = s.get_samples(n)
         ts = np.asarray(s.ts)
+        for tb in getattr(s, '_c10_tables', []):
+            if not np.all(tb.T == 0.75):
+                V('custom_source_array_modified', 'the array a custom source returned (a view of its own stored table) was written into by the stream', site)
+                return False
         if v.shape != (n,) or ts.shape != (n,):
             V('shape', 'get(%d) returned shape %s / ts %s' % (n, v.shape, ts.shape), site)
             return False
